@@ -36,7 +36,7 @@ VALUES_MATCHER_BAD = ['[', 'a.b.c', '(', 'a@b@c', '"', 'wl_surface@3', 'a!b!c', 
 VALUES_PATH = ['\U0001F600.log', 'dir\U00020000/x', 'file.log', '/tmp/x y.log', 'dir/with"quote', 'back\\slash', 'ünï.log', "it's.log", 'a b c', '$HOME', '`x`', '%s', 'tab\there', '', ' ', '-', '0']
 WORDS = ['\U0001F600', 'prog', 'arg1', '-f', 'x', '-r', '--run', '-g', '--gdb', '--', '', 'a b', '-Cr', '--args', '--ex', 'r', 'q', '-l', 'file', '"q"', 'back\\n', "'s'", 'żółć',
          '-p', '--supress', '-b', '*', '-Cg', '-lrt', '-rn', '-ggdb', '-vgC', '-gr', '-rf', '--load', '-rC', '-grr',
-         '~', '~/build/app', '~root', '$HOME', '`id`', '$(id)', 'a;b', '*.log', '{a,b}', '%s', '%(x)s', '{0}', '\\', '#c']
+         '~', '~/build/app', '~root', '$HOME', '`id`', '$(id)', 'a;b', '*.log', '{a,b}', '%s', '%(x)s', '{0}', '\\', '#c', 'Cafe\u0301', '\u2126', '\u1112\u1161\u11ab', '\ufb01le']
 
 
 def plan(tier, seed):
